@@ -28,7 +28,7 @@ def unit():
     lp = m.loop(1)
     Y = "_seq1"
     inI = "i_start <= %s[p][1] and %s[p][1] < i_end" % (Y, Y)
-    lp.invariant("forall(r, 0, len(res), 0 <= g_src[r] and g_src[r] < _i1 and g_dst[g_src[r]] == r and res[r][1] == %s[g_src[r]][1]"
+    lp.invariant("forall(r, 0, len(res), 0 <= g_src[r] and g_src[r] < _i1 and g_src[r] < len(_seq1) and g_dst[g_src[r]] == r and res[r][1] == %s[g_src[r]][1]"
                  " and i_start <= res[r][1] and res[r][1] < i_end and len(res[r][0]) == len(%s[g_src[r]][0])"
                  " and forall(t, 0, len(res[r][0]), res[r][0][t] == elements[%s[g_src[r]][0][t]]), trigger=res[r])" % (Y, Y, Y), "results-come-from-the-stream")
     lp.invariant("forall(r, 0, len(res), res[r][1] == res[0][1])", "all-results-have-the-same-sum")
